@@ -21,6 +21,7 @@ from vf.engine import evid, par
 from vf.ref import ber
 
 FLAVOURS = ["bytes", "bytearray", "memoryview"]
+SPARSE_ABOVE = 400  # streams longer than this use the sparse column set
 
 
 def same_message(orig: t.Any, got: t.Any) -> t.Optional[str]:
@@ -148,6 +149,13 @@ def catalogue(thorough: bool) -> t.List[Stream]:
     # long PDUs (long-form lengths): one >255-byte message
     big = L.SearchResultEntry(1, [], "cn=" + "a" * 130, [L.PartialAttribute("m", [b"x" * 140, b"y"])])
     out.append(Stream("client", ["search"], [big, L.SearchResultDone(1, [], L.LDAPResult(L.LDAPResultCode.SUCCESS, "", "", None))], 0, "long"))
+    # many small messages in one stream (a page of search results), and a 1.5 KB message followed by short ones
+    page = [L.SearchResultEntry(1, [], "cn=%d" % i, [L.PartialAttribute("a", [b"%d" % i])]) for i in range(24)] + [_with_id(don[0], 1)]
+    out.append(Stream("client", ["search"], page, 0, "page-of-25"))
+    out.append(Stream("server", [], [L.ExtendedRequest(i + 1, [], "1.2", b"%d" % i) for i in range(30)], 1, "thirty-requests"))
+    kb = L.ExtendedRequest(1, [], "1.2", b"k" * 1500)
+    out.append(Stream("server", [], [kb, _with_id(er[0], 2), L.UnbindRequest(3, [])][:2] + [_with_id(sr[0], 3)], 0, "1.5KB-then-short"))
+    out.append(Stream("client", ["search"], [L.SearchResultEntry(1, [], "cn=big", [L.PartialAttribute("a", [b"k" * 1400])]), _with_id(ent[0], 1), _with_id(don[0], 1)], 0, "1.5KB-then-short"))
     # 3-octet lengths (>= 65536): explored on the sparse column set around headers and boundaries
     huge = L.SearchResultEntry(1, [], "cn=x", [L.PartialAttribute("jpegPhoto", [b"\xff" * 66000])])
     out.append(Stream("client", ["search"], [huge, _with_id(don[0], 1)], 0, "3-octet-length"))
@@ -194,8 +202,9 @@ def column_set(n: int, ends: t.List[int], sparse: bool) -> t.List[int]:
     if not sparse:
         return list(range(n + 1))
     cols = set(range(0, min(n, 14) + 1)) | set(range(max(0, n - 4), n + 1))
+    wide = len(ends) <= 6
     for e in [0] + ends:
-        cols |= {c for c in range(e - 4, e + 14) if 0 <= c <= n}
+        cols |= {c for c in range(e - 4, e + (14 if wide else 7)) if 0 <= c <= n}
     cols |= {n // 2, n // 3}
     return sorted(cols)
 
@@ -216,7 +225,7 @@ def explore_stream(st: Stream, flavours: t.List[str]) -> evid.Local:
     col_sess: t.List[t.Any] = [None] * (n + 1)
     col_msgs: t.List[t.Any] = [None] * (n + 1)
     base = session_for(st)
-    cols = column_set(n, ends, n > 800)
+    cols = column_set(n, ends, n > SPARSE_ABOVE)
     for j in cols:
         c = copy.deepcopy(base)
         try:
@@ -301,14 +310,14 @@ def run(ctx: evid.Ctx) -> None:
     for i, st in enumerate(streams):
         n = len(st.data())
         for fl in FLAVOURS:
-            if 200 < n <= 800 and fl != "bytes" and not thorough:
+            if 200 < n <= SPARSE_ABOVE and fl != "bytes" and not thorough:
                 continue
             jobs.append((i, fl))
     jobs.sort(key=lambda j: -len(streams[j[0]].data()))
     for loc in par.pmap(_work, jobs, ctx.seed):
         evid.absorb(ctx, loc)
     # columns are shared by the flavours of a stream: count them once
-    ctx.counters["states"] = sum(len(column_set(len(st.data()), [e for _s, e in ber.frame(st.data())[0]], len(st.data()) > 800)) for st in streams)
+    ctx.counters["states"] = sum(len(column_set(len(st.data()), [e for _s, e in ber.frame(st.data())[0]], len(st.data()) > SPARSE_ABOVE)) for st in streams)
     ctx.counters["evaluations"] = ctx.counters.get("transitions", 0)
     ctx.note("streams", len(streams))
     ctx.note("stream_lengths", sorted(len(st.data()) for st in streams))
@@ -323,7 +332,7 @@ def run(ctx: evid.Ctx) -> None:
     ctx.assumptions = [
         "streams are well-formed message sequences on which a single delivery returns (terminators make receive raise: C05/C08)",
         "the equivalence of all partitions follows by induction from the per-edge agreement checked here",
-        "streams longer than 800 bytes use a sparse column set (around every header and PDU boundary): all partitions whose cuts lie in that set",
+        "streams longer than 400 bytes use a sparse column set (around every header and PDU boundary): all partitions whose cuts lie in that set",
     ]
 
 
